@@ -60,7 +60,7 @@ def _match_angle(s, i):
 
 
 class Frame:
-    __slots__ = ("body", "fid", "locals", "ret_place", "ret_block", "caller", "headers", "site", "depth", "synth")
+    __slots__ = ("body", "fid", "locals", "ret_place", "ret_block", "caller", "headers", "site", "depth", "synth", "post")
 
     def __init__(self, body, fid, caller, ret_place, ret_block, site, depth):
         self.body = body
@@ -73,12 +73,14 @@ class Frame:
         self.site = site
         self.depth = depth
         self.synth = {}
+        self.post = None
 
     def copy(self):
         f = Frame(self.body, self.fid, self.caller, self.ret_place, self.ret_block, self.site, self.depth)
         f.locals = dict(self.locals)
         f.headers = set(self.headers)
         f.synth = dict(self.synth)
+        f.post = self.post
         return f
 
 
@@ -149,6 +151,22 @@ PURE_NAMES = {
     "opposite", "default", "with_capacity", "new", "from", "into", "index", "is_char_boundary",
     "wrapping_add", "wrapping_sub", "checked_add", "checked_sub", "abs", "sum", "count", "rev",
     "value", "key", "cloned", "copied", "unwrap", "expect", "then", "then_some", "is_ascii_digit",
+}
+
+
+_O, _R = "std::option::Option", "std::result::Result"
+COMBINATORS = {
+    "std::option::Option::map": (_O, "Some", "None", "map"),
+    "std::option::Option::and_then": (_O, "Some", "None", "and_then"),
+    "std::option::Option::ok_or_else": (_O, "Some", "None", "ok_or_else"),
+    "std::option::Option::ok_or": (_O, "Some", "None", "ok_or"),
+    "std::option::Option::unwrap_or_else": (_O, "Some", "None", "unwrap_or_else"),
+    "std::option::Option::map_or": (_O, "Some", "None", "map_or"),
+    "std::result::Result::map": (_R, "Ok", "Err", "map"),
+    "std::result::Result::map_err": (_R, "Ok", "Err", "map_err"),
+    "std::result::Result::and_then": (_R, "Ok", "Err", "and_then"),
+    "std::result::Result::ok": (_R, "Ok", "Err", "ok"),
+    "std::result::Result::unwrap_or_else": (_R, "Ok", "Err", "unwrap_or_else"),
 }
 
 
@@ -258,6 +276,8 @@ class Walker:
                 caller = st.frames[fr.caller]
                 del st.frames[fr.fid]
                 st.top = caller.fid
+                if fr.post is not None:
+                    val = fr.post(val)
                 self._write(st, fr.ret_place, val)
                 if fr.ret_block is None:
                     self._finish("diverge", None, st)
@@ -749,6 +769,10 @@ class Walker:
                 for mut, val in r[1]:
                     s2 = st.copy()
                     if mut(s2):
+                        if isinstance(val, tuple) and val and val[0] == "__inline__":
+                            self._inline(s2, s2.frame, val[1], val[2], dest, target, site, post=val[3])
+                            alive.append(s2)
+                            continue
                         self._write(s2, dest, val)
                         if target is None:
                             continue
@@ -757,7 +781,7 @@ class Walker:
                 return self._fork(st, alive, work)
             if r[0] == "inline":
                 body2, args2 = r[1], r[2]
-                return self._inline(st, fr, body2, args2, dest, target, site)
+                return self._inline(st, fr, body2, args2, dest, target, site, post=(r[3] if len(r) > 3 else None))
 
         # 3. inline crate-local bodies
         if callee["local"]:
@@ -781,11 +805,12 @@ class Walker:
                 self._write(st, a[1], ("mut", val, i))
         return done(val)
 
-    def _inline(self, st, fr, body2, args, dest, target, site):
+    def _inline(self, st, fr, body2, args, dest, target, site, post=None):
         self.stats["inlined"] += 1
         fid = st.nfid
         st.nfid += 1
         f2 = Frame(body2, fid, fr.fid, dest, target, site, fr.depth + 1)
+        f2.post = post
         for i in range(1, body2.argc + 1):
             f2.locals[i] = args[i - 1] if i - 1 < len(args) else ("missing-arg", i)
         st.frames[fid] = f2
@@ -810,6 +835,9 @@ class Walker:
             return ("val", args[0])
         if name == "deref" and tr == "std::ops::Deref":
             if impl_self.startswith(("std::sync::Arc<", "std::boxed::Box<", "std::string::String", "std::vec::Vec<", "std::borrow::Cow<")):
+                return ("val", args[0])
+        if name == "deref_mut" and tr == "std::ops::DerefMut":
+            if impl_self.startswith(("std::boxed::Box<", "std::string::String", "std::vec::Vec<")):
                 return ("val", args[0])
         if name == "as_ref" and impl_self.startswith("std::sync::Arc<"):
             return ("val", args[0])
@@ -911,27 +939,97 @@ class Walker:
             return ("val", ("unwrap_or", args[0], args[1]))
         # --- direct closure calls
         if name in ("call", "call_mut", "call_once") and tr in ("std::ops::Fn", "std::ops::FnMut", "std::ops::FnOnce"):
-            f = args[0]
-            fv = f
-            if isinstance(f, tuple) and f[0] == "ref":
-                fv = self._read(st, f[1])
-            if isinstance(fv, tuple) and fv[0] == "agg" and isinstance(fv[1], str) and fv[1].startswith("closure:"):
-                b = self.db.bodies.get(fv[1][len("closure:"):])
-                if b is not None and fr.depth < self.max_depth + 2:
-                    want_ref = b.locals[1]["ty"].startswith("&")
-                    a0 = f
-                    if want_ref and not (isinstance(f, tuple) and f[0] == "ref"):
-                        a0 = ("ref", ("pl", ("obj", ("closure-env", fv)), ()), False)
-                        st.heap[(("obj", ("closure-env", fv)), ())] = fv
-                    if not want_ref and isinstance(f, tuple) and f[0] == "ref":
-                        a0 = fv
-                    tup = args[1]
-                    if isinstance(tup, tuple) and tup[0] == "tuple":
-                        rest = list(tup[1])
-                    else:
-                        rest = [self._proj1(tup, ("f", None, str(i))) for i in range(b.argc - 1)]
-                    return ("inline", b, [a0] + rest)
+            tup = args[1]
+            if isinstance(tup, tuple) and tup[0] == "tuple":
+                rest = list(tup[1])
+            else:
+                rest = None
+            act = self._apply_fn(st, fr, args[0], rest, None, tup)
+            if act is not None:
+                return act
+        # --- Option / Result combinators with the closure applied on the matching variant
+        comb = COMBINATORS.get(cn)
+        if comb is not None and len(args) >= 1:
+            return self._combinator(st, fr, comb, args)
         return None
+
+    def _apply_fn(self, st, fr, f, argvals, post, tup=None):
+        """action for calling function value f (closure aggregate, reference to one, or fn item) with argvals"""
+        fv = f
+        if isinstance(f, tuple) and f[0] == "ref":
+            fv = self._read(st, f[1])
+        if isinstance(fv, tuple) and fv[0] == "agg" and isinstance(fv[1], str) and fv[1].startswith("closure:"):
+            b = self.db.bodies.get(fv[1][len("closure:"):])
+            if b is not None and fr.depth < self.max_depth + 2:
+                want_ref = b.locals[1]["ty"].startswith("&")
+                a0 = f
+                if want_ref and not (isinstance(f, tuple) and f[0] == "ref"):
+                    a0 = ("ref", ("pl", ("obj", ("closure-env", fv)), ()), False)
+                    st.heap[(("obj", ("closure-env", fv)), ())] = fv
+                if not want_ref and isinstance(f, tuple) and f[0] == "ref":
+                    a0 = fv
+                if argvals is None:
+                    argvals = [self._proj1(tup, ("f", None, str(i))) for i in range(b.argc - 1)]
+                return ("inline", b, [a0] + list(argvals), post)
+        if isinstance(fv, tuple) and fv[0] == "fn" and argvals is not None:
+            p = cname(fv[1])
+            if p in ("std::sync::Arc::new", "std::boxed::Box::new") and len(argvals) == 1:
+                v = argvals[0]
+                return ("val", post(v) if post else v)
+            b = self.db.bodies.get(fv[1])
+            if b is not None and fr.depth < self.max_depth + 2 and not self.no_inline(fv[1]):
+                return ("inline", b, list(argvals), post)
+        return None
+
+    def _combinator(self, st, fr, comb, args):
+        adt, pos, neg, kind = comb
+        x = args[0]
+        OPT, RES = "std::option::Option", "std::result::Result"
+
+        def payload(v):
+            return self._proj1(x, ("f", v, "0"))
+
+        def wrap(a, v):
+            return lambda val: agg(a, v, [("0", val)])
+        alts = []   # (variant, action)
+        f = args[1] if len(args) > 1 else None
+        if kind == "map":            # Some(x)->Some(f(x)) ; Ok(x)->Ok(f(x))
+            alts.append((pos, self._apply_fn(st, fr, f, [payload(pos)], wrap(adt, pos))))
+            alts.append((neg, ("val", x if adt == OPT else agg(adt, neg, [("0", payload(neg))]))))
+        elif kind == "map_err":
+            alts.append((pos, ("val", agg(adt, pos, [("0", payload(pos))]))))
+            alts.append((neg, self._apply_fn(st, fr, f, [payload(neg)], wrap(adt, neg))))
+        elif kind == "and_then":
+            alts.append((pos, self._apply_fn(st, fr, f, [payload(pos)], None)))
+            alts.append((neg, ("val", agg(adt, neg, [] if adt == OPT else [("0", payload(neg))]))))
+        elif kind == "ok_or_else":   # Option -> Result
+            alts.append((pos, ("val", agg(RES, "Ok", [("0", payload(pos))]))))
+            alts.append((neg, self._apply_fn(st, fr, f, [], wrap(RES, "Err"))))
+        elif kind == "ok_or":
+            alts.append((pos, ("val", agg(RES, "Ok", [("0", payload(pos))]))))
+            alts.append((neg, ("val", agg(RES, "Err", [("0", f)]))))
+        elif kind == "ok":           # Result -> Option
+            alts.append((pos, ("val", agg(OPT, "Some", [("0", payload(pos))]))))
+            alts.append((neg, ("val", agg(OPT, "None", []))))
+        elif kind == "unwrap_or_else":
+            alts.append((pos, ("val", payload(pos))))
+            alts.append((neg, self._apply_fn(st, fr, f, [] if adt == OPT else [payload(neg)], None)))
+        elif kind == "map_or":       # (self, default, f)
+            g = args[2] if len(args) > 2 else None
+            alts.append((pos, self._apply_fn(st, fr, g, [payload(pos)], None)))
+            alts.append((neg, ("val", f)))
+        else:
+            return None
+        if any(a is None for _, a in alts):
+            return None
+        known = self._known_variant(st, x)
+        out = []
+        for v, act in alts:
+            if known is not None and v != known:
+                continue
+            val = act[1] if act[0] == "val" else ("__inline__", act[1], act[2], act[3] if len(act) > 3 else None)
+            out.append((lambda s, x=x, v=v: s.facts.assume_variant(x, v), val))
+        return ("fork", out)
 
     def _known_variant(self, st, x):
         if isinstance(x, tuple) and x[0] == "agg":
